@@ -300,7 +300,7 @@ func reifyCases() []*HostileCase {
 		}
 		out = append(out, hc)
 	}
-	for _, k := range []string{"bytes", "string", "int", "link", "map", "list"} {
+	for _, k := range []string{"bytes", "string", "int", "link", "map", "list", "null", "bool", "float"} {
 		add("nonpb", "nonpb-"+k, &HostileCase{NonPB: k})
 	}
 	t0 := HBlock{ID: "t0", IsRaw: true, Raw: []byte("target zero")}
